@@ -120,6 +120,7 @@ class World:
         self.nsearch = 0
         self.not_settled = 0
         self.reset_pending = False
+        self.reset_wait: set = set()
         # concrete name -> model id
         self.ids = {v: k for k, v in self.names.items()}
         self.ids.update({v: k for k, v in self.rootnames.items()})
@@ -410,7 +411,9 @@ class World:
         if self.session is None or self.client.session is None:
             raise Infeasible('no session')
         if self.reset_pending:
-            if self.busy():
+            # reset() closes the children, then the parent: it is over once none of their links is left
+            # (or, whatever else happened, once the world is quiescent again)
+            if self.busy() and any(self._link_state(self.peers[p]) != 'none' for p in self.reset_wait):
                 raise Infeasible('ResetDistributed still in progress')
             self.reset_pending = False
 
@@ -425,6 +428,8 @@ class World:
     def s_reset(self):
         self._need_session()
         self.reset_pending = True
+        tree = [c.username for c in self.dn.children] + ([self.dn.parent.username] if self.dn.parent else [])
+        self.reset_wait = {self.idof(n) for n in tree if self.idof(n) in self.peers}
         self.rec(ev='reset')
         self.session.send(self.M.ResetDistributed.Response())
 
